@@ -102,7 +102,7 @@ CLAIMED = {
         "text": "Theorems over a model of the CLI run command as an ordered decision chain regenerated from cli/__init__.py (every return attributed to a stage, exit-code table, loop shape): a request rejected at any "
                 "pre-flight stage (unloadable/invalid config, missing required key, invalid or over-cap run space, --validate, --dry-run, run-space dry run) produces no NodeRan / SinkWrote / TraceFile effect and the "
                 "documented exit code; exit 0 iff every planned run completed; after a failed run no later run starts. Closed under the global context. CLI subprocess correspondence over valid and invalid "
-                "configurations x flag combinations (exit code, sink files, trace files, node starts per run), plus direct oracles.",
+                "configurations x flag combinations (exit code, sink files, trace files, node starts per run), plus direct oracles. A run-space dry run is requested by any truthy spelling of run_space.dry_run (C17_dry_run_spellings over Model/Loader.v; generated fact, hard obligation).",
         "note": "Model coq/Model/Cli.v composed with Inspect.v / RunSpace.v / Pipeline.v; KeyboardInterrupt (exit 5) and argparse usage errors only appear in the generated table; --validate returns before run-space planning (oracle accepts 0 or 3 there).",
         "technique": "Coq proof over generated decision chain + CLI subprocess correspondence",
         "design": "DESIGN.md section 6, C17",
@@ -160,7 +160,9 @@ CLAIMED = {
                 "block and combine characterisations, every run carries exactly the union of keys, every documented rejection, cap rejection (unconditional now that the no-blocks cap "
                 "is repaired) and the cost theorem 'rejected for the cap implies nothing materialised' (C08_cap_rejection_builds_nothing, unconditional now that the evaluation order is repaired by fix 7b147bf; "
                 "the generated fact 'sizes are computed arithmetically and tested before any run is built' is a hard reflexivity obligation, and for the former order a witness is proved). Closed under the global context. Model vs implementation compared on thousands of specs (incl. csv/json/yaml/ndjson sources) "
-                "every run; giant products run in a resource-limited subprocess.",
+                "every run; giant products run in a resource-limited subprocess. The specification as written: Model/Loader.v (_parse_run_space_block with its defaults read from the source, hard "
+                "obligations that they are the documented ones and those of schema.py) reads back every specification written in full or with all defaulted members left out "
+                "(C08_written_specification_is_read_back); 300 raw blocks per run are parsed by the implementation and read by the model inside Coq.",
         "note": "Model coq/Model/RunSpace.v; file parsing is cross-checked not modelled; the cost twin is tied to the code through the generated evaluation-order fact and the giant stream.",
         "technique": "Coq proof over executable model + generated facts + differential correspondence + resource-limited giants",
         "design": "DESIGN.md section 6, C08",
